@@ -69,6 +69,7 @@ type Task struct {
 	LastRead  map[ObjKey]readRec
 	onDone    func(t *Task)
 	Flags     map[string]bool
+	Notes     map[ObjKey]string // per-reconcile scratch for oracles (e.g. batch-id written to a pod)
 }
 
 type readRec struct {
